@@ -49,6 +49,12 @@ CHECKS.update({
  'C14': (EM + '; monitor on EVERY callback invocation', 'dmrg_cross and function_interpolate (uni-/multivariate) on all shapes over {2,3,4}^d, d=2,3, plus uneven / tiny / larger shapes, targets of exact TT rank 1..4 and a smooth function, eps in {1e-3,1e-6,1e-10}, seeds, start tensors of rank 1/3 (over-parameterised too): every index / value matrix handed to the user function is validated (shape M x d, column ranges / membership), result error <= 100*eps.',
          'finite seed menu', '§5 C14'),
 })
+CHECKS.update({
+ 'C05': (E2, 'Depth-first explicit-state search over ALL histories of public calls (57 event templates: constructors/algebra/rounding/slicing/reshaping/solvers/in-place set_core, reduce_dims, watch) of depth 2 (quick) / 3 unmerged + 4 merged (thorough) from 5 initial pools; after EVERY transition the well-formedness predicate (cores 3-d/4-d, rank chain, boundary ranks, reported N/M/R/shape/is_ttm equal the cores, full().shape == M+N) is evaluated on EVERY live object.',
+         'partial-order reduction: from depth 2 an event involves the newest object or is in-place; same-dtype operands; objects larger than 2e4 entries are not densified', '§4.2, §5 C05'),
+ 'C06': (E2, 'Same search with the immutability monitor: frozen records (core values, version counters, R, N, M, dtype, core count) of every live object compared after every transition; every TT argument position of every entry point (operands and initial guesses) is filled from the pool; views stay views under replay so writes through a result into its source are seen.',
+         'as C05', '§4.2, §5 C06'),
+})
 PENDING = {}
 ALL = ['C%02d' % i for i in range(1, 21)]
 
